@@ -18,6 +18,7 @@
  *         position p and a seek+read of n bytes there
  *   table <raw|toy> <pre> <datahex>                     sqfs_write_table after <pre> filler bytes, sqfs_read_table
  *   idtab <pre> <id>... | idrange <n>                   sqfs_id_table_id_to_index, _write, _read, _index_to_id
+ *   idlimit <n0> <id>...                                table pre-loaded with n0 ids (sqfs_id_table_read), then id_to_index
  *   frag <pre> <start/size>...                          sqfs_frag_table_append, _write, _read, _lookup
  *   xattr <fix> <k=v,k=v|-> ...                         sqfs_xattr_writer begin/add_kv/end per set, flush, reader load,
  *         read_all of every distinct index (<fix> is only looked at by the model)
@@ -301,6 +302,7 @@ static void print_inode(const sqfs_inode_generic_t *i)
 		for (k = 0; o + sizeof(sqfs_dir_index_t) <= i->payload_bytes_used; ++k) {
 			sqfs_dir_index_t ie;
 			memcpy(&ie, (const char *)i->extra + o, sizeof(ie));
+			if ((size_t)ie.size + 1 > i->payload_bytes_used - o - sizeof(ie)) { fputs(k ? ";!short" : "!short", stdout); break; }
 			printf("%s%u/%u/", k ? ";" : "", ie.index, ie.start_block);
 			hex_print(stdout, (const unsigned char *)i->extra + o + sizeof(ie), (size_t)ie.size + 1);
 			o += sizeof(ie) + (size_t)ie.size + 1;
@@ -592,6 +594,43 @@ static void op_idtab(int range)
 	sqfs_drop(t2);
 out:
 	free(idx); free(ids); sqfs_drop(t);
+}
+
+/* idlimit <n0> <id>...: a table pre-loaded (sqfs_id_table_read) with ids 1000..1000+n0-1, then id_to_index per id,
+ * then sqfs_id_table_write: the 65535-entry limit without 65535 linear searches */
+static void op_idlimit(void)
+{
+	sqfs_id_table_t *t = sqfs_id_table_create(0);
+	sqfs_super_t super;
+	size_t n0, i;
+	sqfs_u32 *raw;
+	sqfs_u64 start = 0;
+	int rc;
+	if (ntok < 2) { puts("bad-op"); return; }
+	n0 = num(toks[1]);
+	if (n0 < 1 || n0 > 65535) { puts("bad-op"); return; }
+	raw = calloc(n0, sizeof(*raw));
+	for (i = 0; i < n0; ++i) raw[i] = htole32((sqfs_u32)(1000 + i));
+	mf_used = 0;
+	rc = sqfs_write_table(&memfile, &raw_cmp, raw, 4 * n0, &start);
+	free(raw);
+	memset(&super, 0, sizeof(super));
+	super.id_count = (sqfs_u16)n0; super.id_table_start = start; super.bytes_used = mf_used;
+	super.fragment_table_start = ~0ULL; super.export_table_start = ~0ULL;
+	if (!rc) rc = sqfs_id_table_read(t, &memfile, &super, &raw_unc);
+	if (rc) { printf("load %d\n", -rc); sqfs_drop(t); return; }
+	fputs("idx", stdout);
+	for (i = 2; i < ntok; ++i) {
+		sqfs_u16 idx = 0xFFFF;
+		rc = sqfs_id_table_id_to_index(t, (sqfs_u32)num(toks[i]), &idx);
+		if (rc) { printf(" e%d", -rc); break; }
+		printf(" %u", idx);
+	}
+	memset(&super, 0, sizeof(super));
+	mf_used = 0;
+	rc = sqfs_id_table_write(t, &memfile, &super, &raw_cmp);
+	printf(" count=%u len=%zu\n", super.id_count, mf_used);
+	sqfs_drop(t);
 }
 
 static void op_frag(void)
@@ -1004,6 +1043,7 @@ int main(void)
 		else if (!strcmp(toks[0], "idtab")) { if (ntok < 2) puts("bad-op"); else op_idtab(0); }
 		else if (!strcmp(toks[0], "idrange")) { if (ntok != 2) puts("bad-op"); else op_idtab(1); }
 		else if (!strcmp(toks[0], "frag")) op_frag();
+		else if (!strcmp(toks[0], "idlimit")) op_idlimit();
 		else if (!strcmp(toks[0], "xattr")) op_xattr();
 		else if (!strcmp(toks[0], "xsets")) op_xsets();
 		else if (!strcmp(toks[0], "tree")) op_tree();
